@@ -18,6 +18,7 @@ type c05Shape struct {
 	method    string
 	generates bool
 	status    bool
+	included  bool   // the task is defined in an included Taskfile (same directory) and called as inc:build
 	genOnce   bool   // the command writes the generated file only when it is missing (its mtime is not refreshed)
 	depGen    bool   // a dependency (re)generates one of the matched sources from seed.txt
 	excl      string // where the exclude entry sits: "after" (documented use) | "before" (excluded files are re-included by the later pattern)
@@ -266,7 +267,11 @@ func c05Events(sh c05Shape) []hEvent {
 			return out
 		}}
 	}
-	evs = append(evs, run("run", "build"), run("force", "--force", "build"))
+	tn := "build"
+	if sh.included {
+		tn = "inc:build"
+	}
+	evs = append(evs, run("run", tn), run("force", "--force", tn))
 	return evs
 }
 
@@ -280,6 +285,7 @@ func c05Units(tier string) []*Unit {
 			c05Shape{name: "exclude-first", method: m, excl: "before"},
 			c05Shape{name: "dep-regenerates-source", method: m, depGen: true, excl: "after"},
 			c05Shape{name: "generates-written-once", method: m, generates: true, genOnce: true, excl: "after"},
+			c05Shape{name: "in-included-taskfile", method: m, generates: true, included: true, excl: "after"},
 		)
 	}
 	var us []*Unit
@@ -299,6 +305,10 @@ func c05Units(tier string) []*Unit {
 					files := map[string]string{"Taskfile.yml": sh.taskfile(), "src/a.txt": "1\n", "src/d/c.txt": "1\n", "src/skip/s.txt": "1\n", "src/skip/deep/x/s2.txt": "1\n", "other.md": "1\n"}
 					if sh.depGen {
 						files["seed.txt"] = "1\n"
+					}
+					if sh.included {
+						files["inc.yml"] = files["Taskfile.yml"]
+						files["Taskfile.yml"] = "version: '3'\nincludes:\n  inc: ./inc.yml\n"
 					}
 					if sh.status {
 						files["ok.flag"] = ""
